@@ -202,6 +202,31 @@ def check_dialect(case, stats):
     got2 = [s.get("type", "<missing>") for s in pk2[0]["steps"]]
     if got2 != EN_TYPES:
         raise Violation(case, "English document parsed with a matcher that had just handled a %s document: pickle step types %r, expected %r" % (d, got2, EN_TYPES))
+    # copies of a configured matcher (prototype kept, copy.copy / copy.deepcopy / pickle round trip handed to each parse; the copies share
+    # what the original holds by reference or carry their own copy of it) type the steps like the original - this dialect's document as the
+    # matcher's default (no header) and the English one after it
+    import copy
+    import pickle
+    proto_d, proto_en = gh.TokenMatcher(d), gh.TokenMatcher("en")
+    gh.parse(text, matcher=proto_en)                  # the English prototype has handled a header document before it is copied
+    body = "\n".join(lines[1:]) + "\n"
+    for how, clone in (("copy.copy", copy.copy), ("copy.deepcopy", copy.deepcopy), ("pickle round trip", lambda o: pickle.loads(pickle.dumps(o)))):
+        # two copies of one English prototype: the first reads the header document, then the second (and the prototype) read English ones
+        fresh_en = gh.TokenMatcher("en")
+        first, second, third = clone(fresh_en), clone(fresh_en), clone(proto_en)
+        gh.parse(text, matcher=first)
+        gh.parse(text, matcher=third)
+        for which, txt, mm, wanted in (("its own dialect's document", body, clone(proto_d), want), ("an English document", EN_DOC, clone(proto_en), EN_TYPES),
+                                       ("an English document after a sibling copy read a %s document" % d, EN_DOC, second, EN_TYPES),
+                                       ("an English document (the never-used prototype itself, after a copy read a %s document)" % d, EN_DOC, fresh_en, EN_TYPES),
+                                       ("an English document (the prototype itself, after a copy read a %s document)" % d, EN_DOC, proto_en, EN_TYPES)):
+            g3 = gh.IdGenerator()
+            r3 = gh.parse(txt, builder=gh.AstBuilder(g3), matcher=mm)
+            if r3[0] != "ok":
+                raise Violation(case, "a %s of a TokenMatcher rejects %s: %r" % (how, which, r3[1][:2]))
+            got3 = [s.get("type", "<missing>") for p_ in gh.Compiler(g3).compile(dict(r3[1], uri="u")) for s in p_["steps"]]
+            if got3 != wanted:
+                raise Violation(case, "a %s of a TokenMatcher (%s) on %s: pickle step types %r, expected %r" % (how, d, which, got3, wanted))
 
 
 def unit_dialects(a):
@@ -261,7 +286,15 @@ def unit_cross(a):
     return stats
 
 
+def unit_modes(a):
+    from vlib.refcompile import proj_c10
+    return pc.unit_modes(proj_c10, "pickle step types")
+
+
 def replay(case, stats):
+    if case["sub"] == "modes":
+        from vlib.refcompile import proj_c10
+        return pc.check_modes(case, stats, proj_c10, "pickle step types")
     if case["sub"] == "shared-compiler":
         from . import c07
         return c07.check_shared_compiler(case, stats)
@@ -286,6 +319,7 @@ def run(ctx):
     ctx.units("shared-compiler-threads", c07.unit_shared, [{"reps": 10 if q else 100}])
     ctx.units("cross-dialect-shared-keywords", unit_cross, [{"shard": i, "nshards": ns} for i in range(ns)], procs=ns)
     ctx.units("dialects-through-parser", unit_dialects, [{"shard": i, "nshards": ns, "variants": [0, 1] if q else [0, 1, 2, 3, 4, 5]} for i in range(ns)], procs=ns)
+    ctx.units("interpreter-modes", unit_modes, [{}])
     ctx.units("compiler-reuse", unit_reuse, [{"n": 450 if q else 4000, "seed": ctx.seed, "shard": i} for i in range(8 if q else 16)], procs=16)
     from . import textdocs
     textdocs.run_text(ctx, "C10")
